@@ -28,6 +28,7 @@ K_CONTAINS_EMPTY = 4
 K_FIXED_OFFSET, K_START_POS, K_FULLWORD_LEN, K_GLOBAL_REFS, K_LIST_UNDEF, K_HIGH_BYTE_ORDER, K_UNDEF_QUANT = \
     10, 11, 12, 13, 14, 15, 16
 K_EMPTY_CLASS = 17
+K_SPAN_PANIC = 18
 
 
 # ------------------------------------------------------------------ printing
@@ -723,7 +724,7 @@ class C07(Prop):
     KF = {K_FIXED_OFFSET: "C07-fixed-offset-listing", K_START_POS: "C07-start-position", K_FULLWORD_LEN: "C07-fullword-single-length",
           K_GLOBAL_REFS: "C07-global-refs-ordinary", K_LIST_UNDEF: "C07-list-undefined-element",
           K_HIGH_BYTE_ORDER: "C07-string-order-high-bytes", K_UNDEF_QUANT: "C07-undefined-quantifier",
-          K_EMPTY_CLASS: "C07-empty-class"}
+          K_EMPTY_CLASS: "C07-empty-class", K_SPAN_PANIC: "C07-regex-span-panic"}
     RULE = ("generated rule files of the shared dialect: 1-4 rules over 1-2 namespaces (global / private / plain, "
             "references to earlier rules and to global rules), 0-3 strings per rule drawn from the C01 text generator "
             "(ascii wide nocase fullword xor base64 shapes), the C02 hex generator (masks, negations, jumps, "
